@@ -239,6 +239,112 @@ Proof.
     rewrite (citem_item it ci Ei x). f_equal. apply IH. reflexivity.
 Qed.
 
+(* --- a bracket expression with multi-character members: the alternation --- *)
+
+Lemma all_some_map_in {A B} (f : A -> option B) : forall l ys x,
+  all_some (map f l) = Some ys -> In x l -> exists y, f x = Some y /\ In y ys.
+Proof.
+  induction l as [|a l IH]; intros ys x H Hin; [destruct Hin|].
+  cbn [map all_some] in H. destruct (f a) as [y0|] eqn:Ea; [|discriminate].
+  destruct (all_some (map f l)) as [ys'|] eqn:El; [|discriminate]. inversion H; subst.
+  destruct Hin as [->|Hin].
+  - exists y0. split; [exact Ea|left; reflexivity].
+  - destruct (IH ys' x eq_refl Hin) as (y & Hy & Hiny). exists y. split; [exact Hy|right; exact Hiny].
+Qed.
+
+Lemma all_some_in_map {A B} (f : A -> option B) : forall l ys y,
+  all_some (map f l) = Some ys -> In y ys -> exists x, In x l /\ f x = Some y.
+Proof.
+  induction l as [|a l IH]; intros ys y H Hin.
+  - inversion H; subst. destruct Hin.
+  - cbn [map all_some] in H. destruct (f a) as [y0|] eqn:Ea; [|discriminate].
+    destruct (all_some (map f l)) as [ys'|] eqn:El; [|discriminate]. inversion H; subst.
+    destruct Hin as [->|Hin].
+    + exists a. split; [left; reflexivity|exact Ea].
+    + destruct (IH ys' y eq_refl Hin) as (x & Hx & Hfx). exists x. split; [right; exact Hx|exact Hfx].
+Qed.
+
+Lemma seq_match_lits : forall v s j s',
+  seq_match (map SLit v) s = Some (j, s') <-> j = length v /\ firstn (length v) s = v /\ s' = skipn (length v) s /\ length v <= length s.
+Proof.
+  induction v as [|c v IH]; intros s j s'; cbn [map seq_match length firstn skipn].
+  - split.
+    + intros H. inversion H; subst. repeat split; lia.
+    + intros (-> & _ & -> & _). reflexivity.
+  - destruct s as [|x s0].
+    + split; [discriminate|]. intros (_ & H & _). discriminate.
+    + cbn [smatch length]. destruct (N.eqb x c) eqn:E.
+      * apply N.eqb_eq in E. subst x.
+        destruct (seq_match (map SLit v) s0) as [[j0 s0']|] eqn:Es; cbn [omap].
+        -- apply IH in Es as (-> & Hf & -> & Hl). split.
+           ++ intros H. inversion H; subst. cbn [fst snd]. rewrite Hf. repeat split; lia.
+           ++ intros (-> & _ & -> & _). reflexivity.
+        -- split; [discriminate|]. intros (-> & Hf & -> & Hl). inversion Hf as [Hf'].
+           assert (seq_match (map SLit v) s0 = Some (length v, skipn (length v) s0)).
+           { apply IH. repeat split; try assumption; lia. }
+           congruence.
+      * split; [discriminate|]. intros (_ & Hf & _). inversion Hf. subst. rewrite N.eqb_refl in E. discriminate.
+Qed.
+
+Lemma atom_sem_alt b alts :
+  b_complement b = false ->
+  all_some (map alt_of (b_items b)) = Some alts ->
+  atom_sem (ABracket b) (RAlt alts).
+Proof.
+  intros Hc Halts r pos s k. cbn [atom_lang]. unfold bracket_lang. rewrite Hc. split.
+  - intros HR. inversion HR as [| | | |? ? ? ? alt j s' k0 Hin Hs HR'| |]; subst.
+    destruct (seq_match_length _ _ _ _ Hs) as [-> Hjl].
+    exists j. replace (j + k0 - j) with k0 by lia. repeat split; try lia; try assumption.
+    destruct (all_some_in_map _ _ _ _ Halts Hin) as (it & Hit & Halt).
+    destruct (bitem_multi it) eqn:Hm.
+    + destruct (multi_ok it Hm) as (_ & v & Hv & Hcases). rewrite Hv in Halt. inversion Halt; subst alt.
+      apply seq_match_lits in Hs as (-> & Hf & _ & _).
+      destruct Hcases as [[Hseq _]|[_ (c & -> & Hh)]].
+      * right. exists it. rewrite Hf. auto.
+      * left. exists c. cbn [length] in Hf. split; [exact Hf|].
+        unfold set_has1. apply existsb_exists. exists it. split; [exact Hit|].
+        rewrite Hh. apply N.eqb_refl.
+    + unfold alt_of in Halt. rewrite Hm in Halt.
+      destruct (citem_of it) as [ci|] eqn:Eci; [|discriminate]. inversion Halt; subst alt.
+      destruct s as [|x s0]; [discriminate|]. cbn [seq_match] in Hs.
+      destruct (smatch (SClass false [ci]) x) eqn:Ex; [|discriminate]. inversion Hs; subst.
+      left. exists x. split; [reflexivity|].
+      assert (Ex' : citem_match x ci = true).
+      { cbn [smatch existsb] in Ex. rewrite orb_false_r in Ex. destruct (citem_match x ci); [reflexivity|discriminate]. }
+      unfold set_has1. apply existsb_exists. exists it. split; [exact Hit|].
+      rewrite <- (citem_item it ci Eci x). exact Ex'.
+  - intros (j & Hj & Hl & Hu & HR).
+    assert (G : exists alt, In alt alts /\ seq_match alt s = Some (j, skipn j s)).
+    { destruct Hu as [(c & Hu & Hset)|(it & Hit & Hseq)].
+      - unfold set_has1 in Hset. apply existsb_exists in Hset as (it & Hit & Hh).
+        assert (Hj1 : j = 1).
+        { pose proof (firstn_length_le s Hl) as E. rewrite Hu in E. cbn in E. lia. }
+        subst j. destruct s as [|x s0]; [discriminate|]. cbn [firstn] in Hu. inversion Hu; subst x.
+        destruct (all_some_map_in _ _ _ it Halts Hit) as (alt & Halt & Hin).
+        exists alt. split; [exact Hin|].
+        destruct (bitem_multi it) eqn:Hm.
+        + destruct (multi_ok it Hm) as (_ & v & Hv & Hcases). rewrite Hv in Halt. inversion Halt; subst alt.
+          destruct Hcases as [[_ Hno]|[_ (c' & -> & Hh')]].
+          * rewrite Hno in Hh. discriminate.
+          * rewrite Hh' in Hh. apply N.eqb_eq in Hh. subst c'.
+            cbn [map seq_match smatch]. rewrite N.eqb_refl. reflexivity.
+        + unfold alt_of in Halt. rewrite Hm in Halt.
+          destruct (citem_of it) as [ci|] eqn:Eci; [|discriminate]. inversion Halt; subst alt.
+          cbn [seq_match smatch existsb]. rewrite orb_false_r.
+          rewrite (citem_item it ci Eci c), Hh. reflexivity.
+      - destruct (all_some_map_in _ _ _ it Halts Hit) as (alt & Halt & Hin).
+        exists alt. split; [exact Hin|].
+        destruct (bitem_multi it) eqn:Hm; [|rewrite (nonmulti_no_seq it Hm) in Hseq; discriminate].
+        destruct (multi_ok it Hm) as (_ & v & Hv & Hcases). rewrite Hv in Halt. inversion Halt; subst alt.
+        destruct Hcases as [[Hseq' _]|[Hnone _]]; [|congruence].
+        rewrite Hseq' in Hseq. inversion Hseq; subst v.
+        assert (Hjl : j = length (firstn j s)) by (rewrite firstn_length_le; auto).
+        apply seq_match_lits. rewrite <- Hjl.
+        repeat split; try reflexivity; try assumption; try lia. }
+    destruct G as (alt & Hin & Hs). replace k with (j + (k - j)) by lia.
+    eapply RM_alt; eassumption.
+Qed.
+
 (* every element of a single-width pattern *)
 Lemma atom_sem_of a n :
   single_width_atom a = true -> node_of_atom a = Some n -> atom_sem a n.
@@ -339,4 +445,72 @@ Proof.
   intros Hsw. rewrite all_some_is_some. unfold valid_ast. apply forallb_ext_in.
   intros at_ Hin. apply atom_ok_node. unfold single_width in Hsw.
   rewrite forallb_forall in Hsw. apply Hsw. exact Hin.
+Qed.
+
+(* ------------------------------------------------------------------ *)
+(* the same for every pattern whose complemented bracket expressions are
+   plain (multi-character collating elements allowed elsewhere)          *)
+
+Lemma single_width_plain_atom a : single_width_atom a = true -> plain_complement a = true.
+Proof.
+  destruct a as [c| | |b]; try reflexivity. cbn [single_width_atom plain_complement].
+  intros H. apply negb_true_iff in H. rewrite H, andb_false_r. reflexivity.
+Qed.
+
+Lemma single_width_plain a : single_width a = true -> plain_complements a = true.
+Proof.
+  unfold single_width, plain_complements. rewrite !forallb_forall.
+  intros H x Hx. apply single_width_plain_atom. apply H. exact Hx.
+Qed.
+
+Lemma atom_sem_of_plain a n :
+  plain_complement a = true -> node_of_atom a = Some n -> atom_sem a n.
+Proof.
+  intros Hp Hn.
+  destruct (single_width_atom a) eqn:Hsw; [apply atom_sem_of; assumption|].
+  destruct a as [c| | |b]; try discriminate.
+  cbn [single_width_atom plain_complement] in *. apply negb_false_iff in Hsw.
+  rewrite Hsw, andb_true_r in Hp. apply negb_true_iff in Hp.
+  cbn [node_of_atom] in Hn. unfold node_of_bracket in Hn. rewrite Hsw, Hp in Hn. cbn [negb] in Hn.
+  destruct (is_nil (b_items b)); [discriminate|].
+  destruct (all_some (map alt_of (b_items b))) as [alts|] eqn:Ea; [|discriminate].
+  inversion Hn; subst. apply atom_sem_alt; assumption.
+Qed.
+
+Lemma nodes_sem_plain : forall a ns,
+  plain_complements a = true -> all_some (map node_of_atom a) = Some ns -> Forall2 atom_sem a ns.
+Proof.
+  induction a as [|at_ a IH]; intros ns Hp H.
+  - inversion H; subst. constructor.
+  - destruct (all_some_cons _ _ _ _ H) as (n & ns' & Hn & Hns & ->).
+    unfold plain_complements in Hp. cbn [forallb] in Hp. apply andb_true_iff in Hp as [H1 H2].
+    constructor; [apply atom_sem_of_plain; assumption|apply IH; assumption].
+Qed.
+
+Lemma alt_ok_iff it : item_ok it = is_some (alt_of it).
+Proof.
+  destruct (bitem_multi it) eqn:Hm.
+  - destruct (multi_ok it Hm) as (Hok & v & Hv & _). rewrite Hok, Hv. reflexivity.
+  - rewrite (nonmulti_ok_iff it Hm). unfold alt_of. rewrite Hm. destruct (citem_of it); reflexivity.
+Qed.
+
+Lemma atom_ok_node_plain a : plain_complement a = true -> atom_ok a = is_some (node_of_atom a).
+Proof.
+  intros Hp. destruct (single_width_atom a) eqn:Hsw; [apply atom_ok_node; exact Hsw|].
+  destruct a as [c| | |b]; try discriminate.
+  cbn [single_width_atom plain_complement] in *. apply negb_false_iff in Hsw.
+  rewrite Hsw, andb_true_r in Hp. apply negb_true_iff in Hp.
+  cbn [atom_ok node_of_atom]. unfold node_of_bracket. rewrite Hsw, Hp. cbn [negb].
+  destruct (is_nil (b_items b)); [reflexivity|]. cbn [negb andb].
+  transitivity (is_some (all_some (map alt_of (b_items b)))).
+  - rewrite all_some_is_some. apply forallb_ext_in. intros it _. apply alt_ok_iff.
+  - destruct (all_some (map alt_of (b_items b))); reflexivity.
+Qed.
+
+Lemma valid_nodes_plain a :
+  plain_complements a = true -> valid_ast a = is_some (all_some (map node_of_atom a)).
+Proof.
+  intros Hp. rewrite all_some_is_some. unfold valid_ast. apply forallb_ext_in.
+  intros at_ Hin. apply atom_ok_node_plain. unfold plain_complements in Hp.
+  rewrite forallb_forall in Hp. apply Hp. exact Hin.
 Qed.
